@@ -392,18 +392,31 @@ def build_gen(name, seed, rng):
     import jinns
 
     key = jax.random.PRNGKey(seed % 100003)
+    # one generator in three is configured for residual-adaptive refinement (4 active points of 6 stored, no
+    # refinement step happens here): its draws obey the same rules
+    rar = {}
+    if seed % 3 == 1 and name in ("ode", "statio1", "statio2", "nonstatio1", "nonstatio2"):
+        rr = dict(start_iter=10 ** 6, update_every=3)
+        if name != "ode":
+            rr.update(sample_size_omega=4, selected_sample_size_omega=1)
+        if not name.startswith("statio"):
+            rr.update(sample_size_times=4, selected_sample_size_times=1)
+        rar = dict(rar=rr, n_start=4, nt_start=4)
+    ep = 2 if rar else 3
     if name == "ode":
-        return gens.make_generator(dict(kind="ode", key=seed % 1000, nt=6, bt=2, tmin=0.0, tmax=1.0)), 3
+        return gens.make_generator(dict(kind="ode", key=seed % 1000, nt=6, bt=2, tmin=0.0, tmax=1.0, **rar)), ep
     if name in ("statio1", "statio2"):
         d = int(name[-1])
         return gens.make_generator(dict(kind="statio", key=seed % 1000, n=6, b=2, dim=d, min_pts=[-1.0, 0.0][:d],
-                                        max_pts=[1.0, 2.0][:d], nb=24 if d == 2 else 2, bb=[5, 2][(seed // 2) % 2] if d == 2 else 1)), 3
+                                        max_pts=[1.0, 2.0][:d], nb=24 if d == 2 else 2, bb=[5, 2][(seed // 2) % 2] if d == 2 else 1,
+                                        **rar)), ep
     if name in ("nonstatio1", "nonstatio2"):
         d = int(name[-1])
         return gens.make_generator(dict(kind="nonstatio", key=seed % 1000, n=6, b=2, dim=d, min_pts=[-1.0, 0.0][:d],
                                         max_pts=[1.0, 2.0][:d], nb=24 if d == 2 else 2,
                                         bb=(2 if (seed // 2) % 2 else 5) if d == 2 else 1,
-                                        nt=6, bt=2, tmin=0.0, tmax=1.0, cartesian=bool((seed // 2) % 2 == 0 or seed % 2))), 3
+                                        nt=6, bt=2, tmin=0.0, tmax=1.0, cartesian=bool((seed // 2) % 2 == 0 or seed % 2),
+                                        **rar)), ep
     n = 6
     rows = np.arange(n, dtype=float) + rng.uniform(0, 0.5)
     if name in ("obs", "obs_eq"):
